@@ -464,6 +464,27 @@ func safeInsert(ctx context.Context, c lungo.ICollection, doc bson.D) (class str
 
 // ---------- the stream ----------
 
+// sessionInsert inserts inside an explicit session transaction (WithTransaction commits at the end).
+func sessionInsert(ctx context.Context, client lungo.IClient, c lungo.ICollection, doc bson.D) (class string) {
+	defer func() {
+		if p := recover(); p != nil {
+			class = "panic"
+		}
+	}()
+	sess, err := client.StartSession()
+	if err != nil {
+		return "error"
+	}
+	defer sess.EndSession(ctx)
+	_, err = sess.WithTransaction(ctx, func(sc lungo.ISessionContext) (interface{}, error) {
+		return c.InsertOne(sc, doc)
+	})
+	if err != nil {
+		return "error"
+	}
+	return "ok"
+}
+
 func crashDoc(r *gen.R, i int) bson.D {
 	d := bson.D{{Key: "_id", Value: int32(i)}}
 	for _, e := range r.Doc(1, false, false) {
@@ -705,7 +726,14 @@ func crashCase(r *gen.R, idx int) []run.Case {
 				ctx, cancel := context.WithTimeout(context.Background(), 5*time.Second)
 				coll := client.Database(crashDB).Collection(colls[i])
 				before := crashDumpCatalog(engine.Catalog())
-				cl := safeInsert(ctx, coll, docs[i])
+				viaSession := i+1 == failOn && r.P(50)
+				var cl string
+				if viaSession {
+					// the failing commit is the commit of an explicit session transaction
+					cl = sessionInsert(ctx, client, coll, docs[i])
+				} else {
+					cl = safeInsert(ctx, coll, docs[i])
+				}
 				if i+1 == failOn {
 					want := "error"
 					if mode == 2 {
@@ -717,10 +745,16 @@ func crashCase(r *gen.R, idx int) []run.Case {
 					if crashDumpCatalog(engine.Catalog()) != before {
 						add("visible catalog changed although Store failed", fmt.Sprintf("fault:mode%d:visible", mode))
 					}
-					// later commits work
-					cl = safeInsert(ctx, coll, docs[i])
+					// later commits work (promptly: the writer slot must have been released)
+					lctx, lcancel := context.WithTimeout(context.Background(), 1500*time.Millisecond)
+					cl = safeInsert(lctx, coll, docs[i])
+					lcancel()
 					if cl != "ok" {
-						add("commit after a failed Store does not succeed", fmt.Sprintf("fault:mode%d:wedged", mode))
+						w := fmt.Sprintf("fault:mode%d:wedged", mode)
+						if viaSession {
+							w += ":session"
+						}
+						add("commit after a failed Store does not succeed", w)
 					}
 				} else if cl != "ok" {
 					add("fault-free commit failed", "fault:spurious")
